@@ -11,10 +11,10 @@ import (
 	"verifharness/vlib"
 )
 
-// c20AcceptedIntervalStaysWithinExpiry (thorough tier: it needs two minutes of
-// real time): the reason the command line bounds --update-interval is that a
+// c20AcceptedIntervalStaysWithinExpiry (two minutes of real time, run
+// alongside the rest of C20): the reason the command line bounds --update-interval is that a
 // host updating at an accepted interval must never drop out of the pool's
-// activity window. The built agent (fake full node) runs at 110 s against the
+// activity window. The built agent (fake full node) runs at 100 s against the
 // built pool; a client asks for peers every 5 s for 125 s and must be offered
 // that host every time.
 func c20AcceptedIntervalStaysWithinExpiry(ev *vlib.Evidence) {
@@ -36,7 +36,7 @@ func c20AcceptedIntervalStaysWithinExpiry(ev *vlib.Evidence) {
 	}
 	defer pp.Kill(false)
 	self := vlib.NewIdentity("c20e2e-host", 0)
-	const interval = "110s"
+	const interval = "100s"
 	ap, err := vlib.StartProc(filepath.Join(dir, "agent.log"), []string{"HOME=" + dir}, bin, "agent", "ws://"+paddr+"/", "--rpc", "fakenode://"+self.NodeID+"?fullnode=1", "--nodekey", writeNodeKey(dir, self), "--update-interval="+interval, "--min-peers=0")
 	if err != nil {
 		ev.Inconclusive("agent-start")
@@ -89,8 +89,13 @@ func c20AcceptedIntervalStaysWithinExpiry(ev *vlib.Evidence) {
 	}
 	start := time.Now()
 	polls, missing := 0, []string{}
+	stalled := false // the harness itself was not scheduled for seconds: the machine is too loaded for a verdict
 	for time.Since(start) < 125*time.Second {
+		t0 := time.Now()
 		time.Sleep(5 * time.Second)
+		if time.Since(t0) > 9*time.Second {
+			stalled = true
+		}
 		ok, alive := offered()
 		if !alive {
 			ev.Inconclusive("ws")
@@ -107,6 +112,10 @@ func c20AcceptedIntervalStaysWithinExpiry(ev *vlib.Evidence) {
 	}
 	ev.Case("accepted-interval-stays-within-expiry "+interval, true)
 	ev.Count("expiry-polls", int64(polls))
+	if len(missing) > 0 && stalled {
+		ev.Inconclusive("machine-stalled-during-expiry-run")
+		return
+	}
 	if len(missing) > 0 {
 		ev.Violate("cli:host-at-an-accepted-interval-dropped-out-of-the-activity-window", map[string]interface{}{"update_interval": interval, "not_offered_at": missing, "polls": polls})
 	}
